@@ -24,6 +24,9 @@ pub fn c12_alphabet() -> Vec<Ans> {
         Ans::Hard(ErrorKind::PermissionDenied),
         Ans::Hard(ErrorKind::UnexpectedEof),
         Ans::Hard(ErrorKind::Other),
+        Ans::Hard(ErrorKind::WouldBlock),
+        Ans::Hard(ErrorKind::TimedOut),
+        Ans::Hard(ErrorKind::InvalidData),
         Ans::Eof,
     ]
 }
@@ -179,7 +182,7 @@ pub fn run(r: &mut Report, ctx: &Ctx) {
         // many interruptions in a row, and interruptions interleaved with short reads
         let mut scripts = Vec::new();
         for &t in &[600u64, BUF as u64 + 1] {
-            for k in [2usize, 5, 17] {
+            for k in [2usize, 5, 17, 129, 1000] {
                 scripts.push(Script { total: t, deviations: (0..k).map(|i| (i, Ans::Interrupted)).collect() });
                 scripts.push(Script { total: t, deviations: (0..2 * k).map(|i| (i, if i % 2 == 0 { Ans::Interrupted } else { Ans::Deliver(3) })).collect() });
                 scripts.push(Script { total: t, deviations: (0..k).map(|i| (i + 1, Ans::Interrupted)).chain(std::iter::once((k + 1, Ans::Hard(ErrorKind::Other)))).collect() });
@@ -189,7 +192,7 @@ pub fn run(r: &mut Report, ctx: &Ctx) {
             r,
             "interrupt-storms",
             "longer scripts: k consecutive interruptions, interruptions alternating with 3-byte reads, interruptions followed by a hard error; same oracle; non-trivial = all consumed",
-            "2 totals x 3 counts x 3 shapes x 5 variants",
+            "2 totals x 5 counts (2, 5, 17, 129, 1000) x 3 shapes x 5 variants",
             scripts,
             &all5,
             true,
@@ -198,13 +201,13 @@ pub fn run(r: &mut Report, ctx: &Ctx) {
     if ctx.want("files") {
         r.section(
             "files",
-            "real files of sizes 0, 384, BUF-1, BUF, BUF+1, 3*BUF+5 in a run-private scratch directory: hash_file_for / hash_file == hash_buf of the file contents (Ok or the same GeneratorError); a missing path is IOError(NotFound); a directory path is an IOError; non-trivial = all",
-            "6 sizes x 5 variants + missing path + directory",
+            "real files of sizes 0, 1, 384, BUF-1, BUF, BUF+1, 2*BUF, 3*BUF+5, 4*BUF in a run-private scratch directory: hash_file_for / hash_file == hash_buf of the file contents (Ok or the same GeneratorError); a missing path is IOError(NotFound); a directory path is an IOError; non-trivial = all",
+            "9 sizes x 5 variants + missing path + directory",
             true,
             |s| {
                 let dir = ctx.scratch.join(format!("c12-{}", std::process::id()));
                 let _ = std::fs::create_dir_all(&dir);
-                let sizes = [0usize, 384, BUF - 1, BUF, BUF + 1, 3 * BUF + 5];
+                let sizes = [0usize, 1, 384, BUF - 1, BUF, BUF + 1, 2 * BUF, 3 * BUF + 5, 4 * BUF];
                 for (i, &sz) in sizes.iter().enumerate() {
                     let data = Stream::Mixed.bytes(0, sz);
                     let path = dir.join(format!("f{i}.bin"));
